@@ -7,6 +7,13 @@ ENGINES = [
 NOTES = "All checks rebuild from /repo's current working tree. Exit 2 = internal error of the machinery (never a verdict)."
 NOT_APPLICABLE = {}
 META = {
+    "C20": {
+        "engine": "bounded exhaustive enumeration + reference decision",
+        "design_ref": "DESIGN.md section 3 C20",
+        "technique": "bounded exhaustive enumeration of privilege tables x request paths x methods x users against a reference nearest-grant decision, at the auth.User layer and through httpd.Handler.ServeHTTP with marker routes",
+        "level_text": "All privilege tables up to the grant bound over a small resource universe are checked against every request resource (path tricks included) and privilege, both directly and through the real HTTP handler chain (mux cleaning, preview rewrite, authenticate, authorize, /write database check) with marker routes that reveal which handler ran on which path; DatabaseResource injectivity over a name alphabet.",
+        "level_note": "Trusted: net/http/httptest, the fake auth service. JWT and subscription tokens are not enumerated. Grants mixing 'all' with other privileges are only checked in the 'only if' direction.",
+    },
     "C04": {
         "engine": "bounded exhaustive enumeration + reference interpreter",
         "design_ref": "DESIGN.md section 3 C04",
